@@ -318,6 +318,12 @@ def jobs_for(t):
             add(g, pairs_for(g.nodes, 1, 1, 2))
         for g in family(3, labellings=("fwd",), n_min=3):
             add(g, pairs_for(g.nodes, 1, 1, 1, stride=4, offset=seed()))
+            # one outcome, two conditions, in both listing orders (IDC* walks the conditions in the order given, and
+            # each is tested given the others): plain atoms
+            both = []
+            for ga, de in pairs_for(g.nodes, 0, 1, 2, shapes=[(1, 2)]):
+                both += [(ga, de), (ga, tuple(reversed(de)))]
+            add(g, both)
             # several outcomes, one condition: rule 2 must hold for every outcome before a condition becomes an intervention
             add(g, pairs_for(g.nodes, 0, 2, 1, shapes=[(2, 1)]))
             add(g, pairs_for(g.nodes, 1, 2, 1, shapes=[(2, 1)], stride=48, offset=seed()))
@@ -346,7 +352,7 @@ def run() -> int:
         "returned Expression -> z3 terms over a symbolic response-type model (vf/sem/l3.py)",
     ]
     rep.bounds = {
-        "graphs": "quick: ADMGs <=2 nodes (1 outcome atom, <=2 condition atoms), 3 nodes (1+1 atoms, every 4th pair; 2 outcome atoms + 1 condition atom: all without subscripts, every 48th with subscripts), subscripts <=1, + the figure-9 query; thorough: two labellings, <=2 nodes with 2+2 atoms and subscripts <=2 (every 3rd), 3 nodes 1+2 atoms (every 16th) and 2+1 atoms (all without subscripts, every 6th with), curated 4/5-node graphs (every 4th)",
+        "graphs": "quick: ADMGs <=2 nodes (1 outcome atom, <=2 condition atoms), 3 nodes (1+1 atoms, every 4th pair; 2 outcome atoms + 1 condition atom: all without subscripts, every 48th with subscripts; 1 outcome atom + 2 condition atoms without subscripts in both listing orders), subscripts <=1, + the figure-9 query; thorough: two labellings, <=2 nodes with 2+2 atoms and subscripts <=2 (every 3rd), 3 nodes 1+2 atoms (every 16th) and 2+1 atoms (all without subscripts, every 6th with), curated 4/5-node graphs (every 4th)",
         "models": "all positive functional SCMs over binary variables, one binary latent per bidirected edge (response-type distributions free)",
         "per_query_timeout_ms": TIMEOUT_MS[t],
         "PYTHONHASHSEED": hashseed(),
